@@ -220,6 +220,11 @@ def run_batch(spec):
                 cfg["delay"] = 0.5
                 cfg["mode"] = "plain"
                 cfg["read_size"] = None
+                if n % 2 == 0:
+                    # one native record per read(2): the two halves of every rename arrive in different batches and can only
+                    # be paired through the delay queue (all names of the universe fit a 32-byte record)
+                    cfg["mode"] = "small"
+                    cfg["read_size"] = 32
                 cfg["n_ops"] = min(cfg["n_ops"], 12)
             h = c01.run_one(b, cfg, "C03", justify=fsjustify.justify)
     elif spec["kind"] == "history1":
